@@ -110,12 +110,17 @@ def run_ops(klepto, archmon, a, b, root, ops):
     mono = time.monotonic_ns
     for op in ops:
         o = op[0]
-        r = {'op': o, 'key': op[1] if len(op) > 1 and o in ('set', 'get', 'in') else None}
+        r = {'op': o, 'key': op[1] if len(op) > 1 and o in ('set', 'set2', 'get', 'in') else None}
+        if o == 'set2':
+            r['value'], r['key2'], r['value2'] = op[2], op[3], op[4]
         r['call'] = mono()
         try:
             if o == 'set':
                 r['value'] = op[2]
                 a[dec(op[1])] = dec(op[2])
+                res = None
+            elif o == 'set2':
+                a.update({dec(op[1]): dec(op[2]), dec(op[3]): dec(op[4])})    # one operation, two keys
                 res = None
             elif o == 'get':
                 res = enc(a[dec(op[1])])
@@ -469,7 +474,10 @@ def gen_case(rng, prop='C14', free=False):
     else:
         wops = []
         for j in range(n):
-            if wl == 'overwrite-reader' or rng.random() < 0.5:
+            if kind == 'file' and rng.random() < 0.4:
+                # two keys in one update(): a reader must see both old or both new
+                wops.append(['set2', 'k', val('k'), 'base', val('b')])
+            elif wl == 'overwrite-reader' or rng.random() < 0.5:
                 wops.append(['set', 'k', val('k')])
             else:
                 wops.append(['set', 'new%d' % j, val('n')])
@@ -481,7 +489,8 @@ def gen_case(rng, prop='C14', free=False):
             if wl == 'writer-opener':
                 rops.append(['open', opener_cached])
             else:
-                rops.append(rng.choice([['get', 'k'], ['in', 'k'], ['len'], ['keys'], ['items'], ['load'], ['get', 'base']]))
+                rops.append(rng.choice([['get', 'k'], ['in', 'k'], ['len'], ['keys'], ['items'], ['load'], ['get', 'base']]
+                                       + ([['load'], ['items'], ['load']] if kind == 'file' else [])))
         jobs.append({'ops': rops})
         if rng.random() < 0.3:
             jobs.append({'ops': [rng.choice([['get', 'k'], ['items'], ['in', 'base']]) for _ in range(m)]})
@@ -491,9 +500,9 @@ def gen_case(rng, prop='C14', free=False):
         jobs = [{'ops': [], 'fork': [[['set', 'f%d_%d' % (w, j), val('f%d' % w)] for j in range(n)] for w in range(nw)]}]
     policy = rng.choice(['random', 'random', 'sticky', 'pct'])
     history = rng.choice([0, 0, 1, 2])
-    if wl == 'writer-opener' and kind == 'file' and rng.random() < 0.35:
+    if wl == 'writer-opener' and kind == 'file' and rng.random() < 0.5:
         s0 = []          # an existing but still empty archive
-        cleared = rng.random() < 0.5
+        cleared = rng.random() < 0.6
         for j in jobs[:1]:
             j['ops'] = [op if op[1] != 'k' else ['set', 'k', op[2]] for op in j['ops']]
     if free and kind == 'sql' and rng.random() < 0.12:
@@ -528,8 +537,10 @@ def judge(case, outs, final):
     writes = {}          # key -> list of (call, ret, value, proc)
     for pi, rec in enumerate(outs):
         for r in rec or []:
-            if r['op'] == 'set':
+            if r['op'] in ('set', 'set2'):
                 writes.setdefault(json.dumps(r['key']), []).append((r['call'], r['ret'], r['value'], pi, 'exc' in r))
+            if r['op'] == 'set2':
+                writes.setdefault(json.dumps(r['key2']), []).append((r['call'], r['ret'], r['value2'], pi, 'exc' in r))
     allowed_vals = dict((k, set([json.dumps(v)])) for k, v in S0.items())
     for k, ws in writes.items():
         for w in ws:
@@ -559,8 +570,10 @@ def judge(case, outs, final):
         cur = dict(S0)
         file_states = [(0, 0, dict(cur))]
         for r in wrec:
-            if r['op'] == 'set' and 'exc' not in r:
+            if r['op'] in ('set', 'set2') and 'exc' not in r:
                 cur = dict(cur); cur[json.dumps(r['key'])] = r['value']
+                if r['op'] == 'set2':
+                    cur[json.dumps(r['key2'])] = r['value2']      # both keys change in one step of the writer
                 file_states.append((r['call'], r['ret'], cur))
     for pi, rec in enumerate(outs):
         if rec is None:
@@ -576,16 +589,14 @@ def judge(case, outs, final):
                 # sqlite's busy timeout is wall-clock (5 s): under a controller that withholds the lock
                 # holder, or on a loaded machine, this is inconclusive - never a verdict
                 JUDGE_NOTES['c14_sqlite_busy_timeouts'] = JUDGE_NOTES.get('c14_sqlite_busy_timeouts', 0) + 1
-                if o == 'set':
-                    r['exc'] = r['exc']      # the write did not complete: it is not owed at the end
                 continue
             if 'exc' in r and not (r['exc'] == 'KeyError' and o == 'get'):
                 mech = []
-                if o != 'set' and rewriting_opener and r['exc'] == 'KeyError':
+                if o not in ('set', 'set2') and rewriting_opener and r['exc'] == 'KeyError':
                     # items()/load() list the keys and then look each one up in a second read of the file; a
                     # key can only vanish in between because an opener's rewrite restored an older dictionary
                     mech = ['file-open-rewrites-archive']
-                if o != 'set' and b['kind'] == 'dir' and 'KeyError' in r['exc']:
+                if o not in ('set', 'set2') and b['kind'] == 'dir' and 'KeyError' in r['exc']:
                     # iteration lists the entry, then its lookup falls into the overwrite window
                     for kk in writes:
                         mech = overwrite_only_mech(kk, r['call'], r['ret'])
@@ -593,7 +604,7 @@ def judge(case, outs, final):
                             break
                 bad('operation-raised', 'client %d %s raised %s' % (pi, o, r['exc']), mech)
                 continue
-            if o == 'set':
+            if o in ('set', 'set2'):
                 continue
             if o == 'get':
                 k = json.dumps(r['key'])
